@@ -41,3 +41,18 @@ class Purse:                     # custom serialisation; its data may hold other
 
     def worth(self):
         return self._coins + len(self.items)
+
+
+try:
+    from bardic.stdlib.inventory import Inventory as _Inventory
+
+    class Backpack(_Inventory):      # a game-specific subclass of a stdlib class with attributes of its own
+        def __init__(self, max_weight=10, owner="nobody", pockets=2):
+            super().__init__(max_weight)
+            self.owner = owner
+            self.pockets = pockets
+
+        def describe(self):
+            return f"{self.owner}'s pack: {len(self.items)} items, {self.pockets} pockets"
+except Exception:  # noqa
+    Backpack = None
